@@ -575,17 +575,69 @@ func (g *gen) text(prev []string) string {
 
 const maxLine = 64 << 10
 
+// Payloads i >= 2 with i%overEvery == overPhase additionally get lines LONGER
+// than 64 KiB (a line reader with a bounded buffer stops at such a line).  The
+// modulus is odd so that these payloads also fall on the Converter.From and
+// the hex-stub indices.
+const (
+	overEvery = 9
+	overPhase = 4
+)
+
+func overlongIndex(i int) bool { return i >= 2 && i%overEvery == overPhase }
+
+// overLens are the lengths (bytes, approximately: the line prefix comes on
+// top) of over-long lines; the first is just over the 64 KiB limit.
+var overLens = []int{maxLine + 1, 70 << 10, 100 << 10, 128<<10 + 1, 200 << 10, 300 << 10}
+
+// blobPrefixes start an over-long NON-TABDOC line: comments (so the whole
+// payload can still be sourced), two of them near misses of the tag.
+var blobPrefixes = []string{
+	"# blob: ",
+	"#",
+	"# uuencoded '; touch CANARY_BLOB1; ' ",
+	"## TABDOC: blobfn ",
+	" # TABDOC: blobfn $(touch CANARY_BLOB2) ",
+	"#TABDOC: ",
+}
+
+const b64 = "ABCDEFGHIJKLMNOPQRSTUVWXYZabcdefghijklmnopqrstuvwxyz0123456789+/"
+
+// blob returns an over-long comment line of n bytes after the prefix.
+func (g *gen) blob(n int) string {
+	pre := blobPrefixes[g.rng.IntN(len(blobPrefixes))]
+	g.classes["overlong-untagged-line"]++
+	if g.rng.IntN(3) == 0 {
+		return pre + g.long(n) // quote breakers and random bytes
+	}
+	b := make([]byte, n)
+	x := g.rng.Uint64() | 1
+	for k := range b {
+		x ^= x << 13
+		x ^= x >> 7
+		x ^= x << 17
+		b[k] = b64[x&63]
+	}
+	return pre + string(b)
+}
+
 // genPayload builds payload i.  Indices 0 and 1 are curated: every fragment
 // of the (clean / wild) pool once as a description and once as a name.
 func genPayload(rng *rand.Rand, i int) payload {
 	g := &gen{rng: rng, classes: map[string]int64{}}
 	var lines, texts []string
+	var tagged []bool
+	filler := func(l string) {
+		lines = append(lines, l)
+		tagged = append(tagged, false)
+	}
 	add := func(t string) {
 		if len(tag)+len(t) > maxLine {
 			t = t[:maxLine-len(tag)]
 		}
 		texts = append(texts, t)
 		lines = append(lines, tag+t)
+		tagged = append(tagged, true)
 	}
 	if i < 2 {
 		g.clean = i == 0
@@ -601,12 +653,16 @@ func genPayload(rng *rand.Rand, i int) payload {
 				add(fmt.Sprintf(" %s name made of fragment %d", n, k))
 			}
 			if k%7 == 0 {
-				lines = append(lines, fillerLines[(k/7)%len(fillerLines)])
+				filler(fillerLines[(k/7)%len(fillerLines)])
 			}
 		}
 		return payload{text: strings.Join(lines, "\n") + "\n", texts: texts, classes: g.classes, clean: g.clean, curated: true}
 	}
+	over := overlongIndex(i)
 	g.clean = rng.IntN(100) < 60
+	if over && (i/overEvery)%5 != 0 {
+		g.clean = true // most over-long payloads are judged on row fidelity
+	}
 	nt := 1 + rng.IntN(40)
 	if rng.IntN(3) == 0 {
 		nt = 1 + rng.IntN(6)
@@ -618,7 +674,7 @@ func genPayload(rng *rand.Rand, i int) payload {
 	}
 	for k := 0; k < nt; k++ {
 		for rng.IntN(3) == 0 {
-			lines = append(lines, fillerLines[rng.IntN(len(fillerLines))])
+			filler(fillerLines[rng.IntN(len(fillerLines))])
 		}
 		if k == longAt {
 			g.classes["long-line"]++
@@ -628,13 +684,93 @@ func genPayload(rng *rand.Rand, i int) payload {
 		add(g.text(texts))
 	}
 	for rng.IntN(3) == 0 {
-		lines = append(lines, fillerLines[rng.IntN(len(fillerLines))])
+		filler(fillerLines[rng.IntN(len(fillerLines))])
+	}
+	if over {
+		// Over-long lines are inserted into the finished line list.  Kinds, by
+		// index: 0 one untagged blob, 1 one tagged line with an over-long
+		// description, 2 both, 3 several of each anywhere (also last).
+		insert := func(at int, l string, isTag bool) {
+			lines = append(lines[:at], append([]string{l}, lines[at:]...)...)
+			tagged = append(tagged[:at], append([]bool{isTag}, tagged[at:]...)...)
+		}
+		// a position at or before the last tagged line: rows follow the long line
+		beforeLastTag := func() int {
+			last := 0
+			for k, t := range tagged {
+				if t {
+					last = k
+				}
+			}
+			if g.rng.IntN(4) == 0 {
+				return 0 // very first line: every row follows
+			}
+			return g.rng.IntN(last + 1)
+		}
+		olen := func() int { return overLens[g.rng.IntN(len(overLens))] }
+		doc := func() string {
+			g.classes["overlong-tagged-line"]++
+			return tag + g.spaces(0) + g.name() + g.spaces(1) + g.long(olen())
+		}
+		switch kind := (i / overEvery) % 4; kind {
+		case 0:
+			insert(beforeLastTag(), g.blob(olen()), false)
+		case 1:
+			insert(beforeLastTag(), doc(), true)
+		case 2:
+			insert(beforeLastTag(), g.blob(olen()), false)
+			insert(beforeLastTag(), doc(), true)
+		default:
+			for k, n := 0, 2+g.rng.IntN(3); k < n; k++ {
+				at := g.rng.IntN(len(lines) + 1)
+				if k == 0 {
+					at = beforeLastTag()
+				}
+				if g.rng.IntN(2) == 0 {
+					insert(at, g.blob(olen()), false)
+				} else {
+					insert(at, doc(), true)
+				}
+			}
+		}
+		texts = texts[:0]
+		for k, l := range lines {
+			if tagged[k] {
+				texts = append(texts, l[len(tag):])
+			}
+		}
 	}
 	text := strings.Join(lines, "\n")
 	if rng.IntN(4) != 0 {
 		text += "\n"
 	}
 	return payload{text: text, texts: texts, classes: g.classes, clean: g.clean}
+}
+
+// overStats looks at the final payload text: lines longer than 64 KiB (tagged,
+// untagged) and the number of distinct reference rows of tagged lines that
+// come after the first such line.
+func overStats(text string) (overTagged, overUntagged, rowsAfter int) {
+	seen := map[pair]bool{}
+	after := false
+	for _, l := range strings.Split(text, "\n") {
+		isTag := strings.HasPrefix(l, tag)
+		if after && isTag {
+			if n, d, empty := refSplit(l[len(tag):]); !empty && !seen[pair{n, d}] {
+				seen[pair{n, d}] = true
+				rowsAfter++
+			}
+		}
+		if len(l) > maxLine {
+			after = true
+			if isTag {
+				overTagged++
+			} else {
+				overUntagged++
+			}
+		}
+	}
+	return
 }
 
 // ---- running a shell -------------------------------------------------------------------
@@ -970,7 +1106,7 @@ type checker struct {
 }
 
 // check runs one function text under every shell and returns the findings.
-func (c *checker) check(dir, src string, stub string, fidelity bool, texts []string, each func(sh shellSpec, o *outcome, fs []finding)) (ok bool) {
+func (c *checker) check(dir, src string, stub string, fidelity bool, texts []string, rowsAfterLong int, each func(sh shellSpec, o *outcome, fs []finding)) (ok bool) {
 	fn := filepath.Join(dir, "fn.sh")
 	if err := os.WriteFile(fn, []byte(src), 0o644); err != nil {
 		c.r.Inconclusive("writing function file: " + err.Error())
@@ -992,6 +1128,12 @@ func (c *checker) check(dir, src string, stub string, fidelity bool, texts []str
 		fs, n := judge(o, sh.name, fidelity, texts)
 		c.r.Count("echo_calls_observed", int64(len(o.calls)+len(o.preCalls)))
 		c.r.Count("rows_compared", int64(n))
+		if n > 0 && rowsAfterLong > 0 {
+			// the comparison was made against a reference that includes the rows
+			// of the tagged lines after the first over-long line
+			c.r.Count("rows_after_a_long_line_checked", int64(rowsAfterLong))
+			c.r.Count("shell_runs_with_rows_after_a_long_line", 1)
+		}
 		// every shell must have been handed the same words
 		if len(fs) == 0 {
 			if ref == nil {
@@ -1129,6 +1271,20 @@ func (c *checker) payload(i int) {
 	if long {
 		r.Count("long_line_payloads", 1)
 	}
+	overTagged, overUntagged, rowsAfterLong := overStats(p.text)
+	if overTagged+overUntagged > 0 {
+		r.Count("payloads_with_line_over_64k", 1)
+		r.Count("lines_over_64k", int64(overTagged+overUntagged))
+		if overTagged > 0 {
+			r.Count("payloads_with_tabdoc_line_over_64k", 1)
+		}
+		if overUntagged > 0 {
+			r.Count("payloads_with_untagged_line_over_64k", 1)
+		}
+		if rowsAfterLong > 0 {
+			r.Count("payloads_with_rows_after_a_long_line", 1)
+		}
+	}
 	if dup {
 		r.Count("duplicate_line_payloads", 1)
 	}
@@ -1184,7 +1340,10 @@ func (c *checker) payload(i int) {
 		r.Violate("payload", i, "function-does-not-parse", fmt.Sprintf("payload %d: GenFuncList failed: %v", i, err), map[string]any{"tabdoc_lines": lineWitness(texts)})
 		return
 	}
-	c.check(dir, string(fn), stub, fidelity, texts, report("GenFuncList", string(fn)))
+	if overTagged+overUntagged > 0 && fidelity {
+		r.Count("fidelity_payloads_with_line_over_64k", 1)
+	}
+	c.check(dir, string(fn), stub, fidelity, texts, rowsAfterLong, report("GenFuncList", string(fn)))
 
 	// (2) for a sample, through Converter.From on a .sh file of comment lines.
 	if i%4 == 0 {
@@ -1205,7 +1364,10 @@ func (c *checker) payload(i int) {
 		if !bytes.HasPrefix(out, []byte(p.text)) {
 			r.Violate("payload", i, "row-altered", fmt.Sprintf("payload %d: Converter.From output does not start with the .sh file's contents", i), map[string]any{"tabdoc_lines": lineWitness(texts), "output_head": q(clip(string(out), 1024))})
 		}
-		c.check(dir, string(out), stub, fidelity, refTexts(string(out)), report("Converter.From", string(out)))
+		if overTagged+overUntagged > 0 {
+			r.Count("converter_from_payloads_with_line_over_64k", 1)
+		}
+		c.check(dir, string(out), stub, fidelity, refTexts(string(out)), rowsAfterLong, report("Converter.From", string(out)))
 	}
 }
 
@@ -1238,7 +1400,7 @@ func (c *checker) probe() {
 
 // Run is the check.
 func Run(r *mon.Run) {
-	r.Rule = "cases: payload i is generated from Rng(payload,i): 1-40 '# TABDOC:' lines (payloads 0 and 1: every fragment of the pool once as description and once as name) interleaved with comment/near-miss lines; texts are assembled from a pool of quote breakers, command substitutions, separators/redirections to canary paths, expansions, control bytes, invalid UTF-8, Unicode whitespace, random bytes (no LF, no NUL), duplicates (exact and re-spaced), prefix extensions, empty texts, lines up to 64 KiB; 60% of the payloads are generated free of TAB/VT/FF/0xFF and of non-space whitespace at name/description edges (row fidelity asserted, decided by a predicate on the final payload), the others are unrestricted (quote-safety only). Every payload: GenFuncList(payload) sourced alone under dash, bash and bash --posix with echo replaced by a recording function (NUL-framed; every 8th payload od-hex), cwd a fresh empty directory, PATH a stub directory; every 4th payload additionally through Converter.From (AddListFunction) on a .sh file, whole output sourced. distinct_nontrivial = distinct sets of TABDOC texts (hash) having at least one non-blank text"
+	r.Rule = "cases: payload i is generated from Rng(payload,i): 1-40 '# TABDOC:' lines (payloads 0 and 1: every fragment of the pool once as description and once as name) interleaved with comment/near-miss lines; texts are assembled from a pool of quote breakers, command substitutions, separators/redirections to canary paths, expansions, control bytes, invalid UTF-8, Unicode whitespace, random bytes (no LF, no NUL), duplicates (exact and re-spaced), prefix extensions, empty texts, lines up to 64 KiB; every 9th payload (i%9==4) additionally carries 1-4 lines LONGER than 64 KiB (64 KiB+1 ... 300 KiB): untagged comment/near-miss blob lines and/or tagged lines whose description is that long, placed before some tagged lines (reference rows include the lines after the long one), 4 of 5 of them generated in fidelity mode; 60% of the payloads are generated free of TAB/VT/FF/0xFF and of non-space whitespace at name/description edges (row fidelity asserted, decided by a predicate on the final payload), the others are unrestricted (quote-safety only). Every payload: GenFuncList(payload) sourced alone under dash, bash and bash --posix with echo replaced by a recording function (NUL-framed; every 8th payload od-hex), cwd a fresh empty directory, PATH a stub directory; every 4th payload additionally through Converter.From (AddListFunction) on a .sh file, whole output sourced. distinct_nontrivial = distinct sets of TABDOC texts (hash) having at least one non-blank text"
 	r.Assumptions = []string{
 		"dash 0.5.12 and bash 5.2 (normal and --posix) stand for 'a POSIX shell'; LC_ALL=C",
 		"the property ends where the word is handed to echo: what a real echo does with backslashes or -n is not observed",
@@ -1306,4 +1468,10 @@ func Run(r *mon.Run) {
 	r.Floor("bytes_0x01_0x1f_used", int64(n))
 	r.Floor("invalid_utf8_payloads", int64(n/10))
 	r.Floor("long_line_payloads", 1)
+	r.Floor("payloads_with_line_over_64k", int64(n/10))
+	r.Floor("payloads_with_tabdoc_line_over_64k", int64(n/25))
+	r.Floor("payloads_with_untagged_line_over_64k", int64(n/25))
+	r.Floor("fidelity_payloads_with_line_over_64k", int64(n/15))
+	r.Floor("converter_from_payloads_with_line_over_64k", int64(n/60))
+	r.Floor("rows_after_a_long_line_checked", int64(n))
 }
